@@ -4,7 +4,7 @@ import os
 import random
 
 from .. import tl
-from ..lang import UserErr, exc_desc
+from ..lang import FalsyUserErr, UserErr, exc_desc
 
 ID = "C10"
 LEVEL = "exploration"
@@ -359,7 +359,7 @@ def run_sequence(kind, seq):
             elif op == "set_value":
                 got = ("ret", obj.set_value(("set", step)))
             elif op == "set_error":
-                got = ("ret", obj.set_error(UserErr(("set", step))))
+                got = ("ret", obj.set_error((FalsyUserErr if step % 2 else UserErr)(("set", step))))
             elif op == "reset":
                 got = ("ret", obj.reset_unsafe())
             else:
